@@ -10,7 +10,8 @@ KIDS = ['C14-offsets-unused', 'C14-duplicate-overwrites']
 RULE = ('object streams of 1..12 objects of every value kind (integers, reals, names, strings, hex strings, booleans, null, '
         'references, nested arrays and dictionaries) x white-space / comment choices between header numbers and before '
         'objects x gap contents between the end of one object and the declared offset of the next {nothing, white space, '
-        'comment, a complete other object, junk} x pre-defined contexts x filters {FlateDecode levels 0/1/6/9, ASCIIHex, '
+        'comment, a comment-like gap "ws* % junk" with NO end of line before the next declared offset (also with the % directly '
+        'after the previous member; first/middle/last), a complete other object, junk} x pre-defined contexts x filters {FlateDecode levels 0/1/6/9, ASCIIHex, '
         'ASCII85, A85+Flate, AHex+Flate, A85+AHex} x shapes {random, many repetitive members with compressed size < /First < '
         'decoded size, incompressible}; every single corruption of a '
         'header number (offset +-1, swapped, equal, negative, missing pair; offset = len-1 / len / len+1 / beyond / 2^31..2^64, '
@@ -439,6 +440,24 @@ def cases(tier, rng):
                 ctx[(rng.randrange(60, 70), 0)] = rng.choice(['i1', 'n', 'A(i1,i2)'])
             ctx[(ids[0], 1)] = 'i77'
         out.append(os_case(d, content, ctx, qs(ids, ctx), depth=rng.choice([10, 10, 3, 50])))
+    # gaps of the form ws* % junk WITHOUT an end of line before the next declared offset: the next member lies inside
+    # what a lexer would take for a comment, also with the % directly after the previous member; first/middle/last
+    cgaps = [b'%', b' %', b'  %x', b'\t%50', b' %(', b'%[', b'\n %<<', b'\x00% ', b' %%', b'%/N 1 ', b' % 7 0 R ']
+    cvals = [b'(a)', b'(x)', b'(b)', b'<</A 1>>', b'[1 2]', b'[3]', b'/Nm', b'12', b'<4142>', b'true', b'null', b'7 0 R']
+    out.append(os_case(*build_stream(rng, [5, 6, 7], [b'(a)', b'(x)', b'(b)'], [b' %', b' \n', b'']), {}, [(5, 0), (6, 0), (7, 0)]))
+    out.append(os_case(*build_stream(rng, [5, 6, 7], [b'<</A 1>>', b'[1 2]', b'[3]'], [b' %50', b'', b'']), {}, [(5, 0), (6, 0), (7, 0)]))
+    n_g = 400 if tier == 'thorough' else 60
+    for r in range(n_g):
+        n = 3 if r % 2 == 0 else rng.randrange(2, 7)
+        ids = rng.sample(range(1, 60), n)
+        vals = [rng.choice(cvals) if r % 3 else rand_value(rng) for _ in range(n)]
+        gaps = [b' '] * n
+        where = [r // 2 % n] if r % 4 < 2 else [k for k in range(n) if rng.random() < 0.6] or [0]
+        for k in where:                                  # k = 0: after the first, …, n-1: after the last member
+            gaps[k] = rng.choice(cgaps)
+        ctx = {(77, 0): 'i7'} if r % 5 == 0 else {}
+        d, c = build_stream(rng, ids, vals, gaps)
+        out.append(os_case(d, c, ctx, qs(ids, ctx)))
     # the design witness: header "5 0 6 6", data "11 22 33"
     out.append(os_case({'Type': oname('ObjStm'), 'N': 'i2', 'First': 'i8'}, b'5 0 6 6 11 22 33', {}, [(5, 0), (6, 0)]))
     # corruptions of a legal stream
